@@ -1,0 +1,58 @@
+//go:build verif
+
+// Contracts for the deductive verification of this package (comment-only; compiled only with -tags verif).
+// Syntax and semantics: /verif/DESIGN.md §3. Obligations are generated from the real function bodies by /verif/govc.
+
+package analysis
+
+// ---------------------------------------------------------------- fixer.go (C19)
+
+//@ fun needsFix(r spec.Response) bool = r.Description == "" && r.Ref.Ref.GetURL() == nil
+//@ ofun fixResp(r spec.Response) spec.Response = if needsFix(r) then r with {Description: "(empty)"} else r
+//@ ofun isFixed(r spec.Response) bool = !needsFix(r)
+//@ ofun stepR(a spec.Response, b spec.Response) bool = b == a || b == fixResp(a)
+
+//@ lemma fixIsFixed [C19]: forall a spec.Response :: isFixed(fixResp(a))
+//@ lemma fixedNoop [C19]: forall a spec.Response :: isFixed(a) ==> fixResp(a) == a
+//@ lemma fixIdem [C19]: forall a spec.Response :: fixResp(fixResp(a)) == fixResp(a)
+//@ lemma stepRefl [C19]: forall a spec.Response :: stepR(a, a) && stepR(a, fixResp(a))
+//@ lemma stepTrans [C19]: forall a spec.Response :: forall b spec.Response :: forall c spec.Response :: stepR(a, b) && stepR(b, c) ==> stepR(a, c)
+//@ lemma stepKeepsFixed [C19]: forall a spec.Response :: forall b spec.Response :: stepR(a, b) && isFixed(a) ==> isFixed(b)
+//@ lemma fixOnlyDesc [C19]: forall a spec.Response :: fixResp(a) == a || (a.Description == "" && fixResp(a) == a with {Description: "(empty)"})
+
+//@ func FixEmptyDesc(rs)
+//@   modifies *rs
+//@   ensures rs != nil ==> *rs == fixResp(old(*rs))
+
+//@ func FixEmptyDescs(rs)
+//@   modifies *rs.Default, map rs.StatusCodeResponses
+//@   ensures rs != nil && rs.Default != nil ==> *rs.Default == fixResp(old(*rs.Default))
+//@   ensures rs != nil ==> forall c in dom(rs.StatusCodeResponses) :: rs.StatusCodeResponses[c] == fixResp(old(rs.StatusCodeResponses[c]))
+//@   ensures rs != nil ==> dom(rs.StatusCodeResponses) == old(dom(rs.StatusCodeResponses))
+//@   ensures forall r *spec.Response :: !fresh(r) ==> stepR(old(*r), *r)
+//@   ensures forall m map[int]spec.Response :: !fresh(m) ==> dom(m) == old(dom(m)) && (forall c in dom(m) :: stepR(old(m[c]), m[c]))
+//@   ensures respsFixed(rs)
+//@   loop 1: modifies *&v, map rs.StatusCodeResponses
+//@   loop 1: invariant dom(rs.StatusCodeResponses) == old(dom(rs.StatusCodeResponses))
+//@   loop 1: invariant forall c in seen :: rs.StatusCodeResponses[c] == fixResp(old(rs.StatusCodeResponses[c]))
+//@   loop 1: invariant forall c in dom(rs.StatusCodeResponses) :: !(c in seen) ==> rs.StatusCodeResponses[c] == old(rs.StatusCodeResponses[c])
+
+//@ fun respsFixed(rs *spec.Responses) bool = rs != nil ==> (rs.Default != nil ==> isFixed(*rs.Default)) && (forall c in dom(rs.StatusCodeResponses) :: isFixed(rs.StatusCodeResponses[c]))
+//@ fun opFixed(op *spec.Operation) bool = op != nil ==> respsFixed(op.Responses)
+//@ fun pathFixed(pi spec.PathItem) bool = opFixed(pi.Get) && opFixed(pi.Put) && opFixed(pi.Post) && opFixed(pi.Delete) && opFixed(pi.Options) && opFixed(pi.Head) && opFixed(pi.Patch)
+
+//@ func FixEmptyResponseDescriptions(s)
+//@   requires s != nil
+//@   modifies map s.Responses, heap spec.Response, heap map[int]spec.Response
+//@   ensures dom(s.Responses) == old(dom(s.Responses))
+//@   ensures forall k in dom(s.Responses) :: s.Responses[k] == fixResp(old(s.Responses[k]))
+//@   ensures forall r *spec.Response :: !fresh(r) ==> stepR(old(*r), *r)
+//@   ensures forall m map[int]spec.Response :: !fresh(m) ==> dom(m) == old(dom(m)) && (forall c in dom(m) :: stepR(old(m[c]), m[c]))
+//@   ensures s.Paths != nil ==> forall p in dom(s.Paths.Paths) :: pathFixed(s.Paths.Paths[p])
+//@   loop 1: modifies *&v, map s.Responses
+//@   loop 1: invariant dom(s.Responses) == old(dom(s.Responses))
+//@   loop 1: invariant forall k in seen :: s.Responses[k] == fixResp(old(s.Responses[k]))
+//@   loop 1: invariant forall k in dom(s.Responses) :: !(k in seen) ==> s.Responses[k] == old(s.Responses[k])
+//@   loop 2: invariant forall r *spec.Response :: !fresh(r) ==> stepR(old(*r), *r)
+//@   loop 2: invariant forall m map[int]spec.Response :: !fresh(m) ==> dom(m) == old(dom(m)) && (forall c in dom(m) :: stepR(old(m[c]), m[c]))
+//@   loop 2: invariant forall p in seen :: pathFixed(s.Paths.Paths[p])
